@@ -63,14 +63,31 @@ impl PartialEq<OItem> for NItem {
         self.0 == o.0
     }
 }
+/// salt `WEAK_HASH`: a lawful but heavily colliding hash (only the parity of the label);
+/// salt `CONST_HASH`: every item hashes alike
+pub const WEAK_HASH: u32 = u32::MAX;
+pub const CONST_HASH: u32 = u32::MAX - 1;
+/// salt `STR_HASH`: hash like a short string does (`write(bytes)` then `write_u8(0xff)`)
+pub const STR_HASH: u32 = u32::MAX - 2;
+fn item_hash<H: Hasher>(label: u32, salt: u32, h: &mut H) {
+    if salt == STR_HASH {
+        label.to_string().hash(h)
+    } else if salt == WEAK_HASH {
+        (label & 1).hash(h)
+    } else if salt == CONST_HASH {
+        7u32.hash(h)
+    } else {
+        (label ^ salt.wrapping_mul(0x9E37_79B9)).hash(h)
+    }
+}
 impl Hash for OItem {
     fn hash<H: Hasher>(&self, h: &mut H) {
-        (self.0 ^ self.1.wrapping_mul(0x9E37_79B9)).hash(h)
+        item_hash(self.0, self.1, h)
     }
 }
 impl Hash for NItem {
     fn hash<H: Hasher>(&self, h: &mut H) {
-        (self.0 ^ self.1.wrapping_mul(0x9E37_79B9)).hash(h)
+        item_hash(self.0, self.1, h)
     }
 }
 
